@@ -33,7 +33,7 @@ func (o *c08) onBuilt(n int, ref *blockRef) {
 			break
 		}
 	}
-	if o.im == nil {
+	if o.im == nil || ref.tainted != "" {
 		return
 	}
 	var err error
